@@ -554,8 +554,10 @@ class Mutations:
 
         mutate_attr, mutate_param = hp_config.sample()
 
-        if mutate_param.value is None:
-            mutate_param.value = getattr(individual, mutate_attr)
+        # The base of the mutation is always the individual's own current value. The
+        # configuration object (and with it the value cached on the RLParameter) may be
+        # shared by every member of a population, so a cached value can be a neighbour's
+        mutate_param.value = getattr(individual, mutate_attr)
 
         # Randomly grow or shrink hyperparameters by specified factors
         new_value = mutate_param.mutate()
